@@ -12,7 +12,7 @@ simply goes on reading from wherever the failed reader stopped.
 
 Byte-field arithmetic is written on `Nat` (`u.toNat / 64`, `% 64`) instead of `>> 6`, `& 0x3f`.
 `pf` is the stand-in for `strconv.ParseFloat(text, 64)` succeeding (trusted, see DESIGN §3).
-The hash chunk limit (`16*1024*1024` in the source, regenerated as `Generated.rdbChunkLimit`) is the
+The hash chunk limit (`16*1024*1024` in the source, regenerated as `Generated.C01.chunkLimit`, see `Properties.C01.consts_tie`) is the
 parameter `L`, so that the same model serves the scaled correspondence build.
 -/
 namespace RSVerif.Rdb
